@@ -911,11 +911,11 @@ func runWorld(seed uint64, idx int, tier string, only [][]crashPoint) (res *resu
 	for _, b := range bad0 {
 		res.viols = append(res.viols, violation{vfp("unexpected-op"), "operation outside the persistence protocol in the async-search directory: " + b, base()})
 	}
-	// number of projected operations completed when StartSearch was acknowledged (3rd answer: open, start, search)
+	// number of projected operations completed when StartSearch was acknowledged (4th answer: open, fracs, start, search)
 	acked := 0
-	if len(marks0) >= 3 {
+	if len(marks0) >= 4 {
 		for _, o := range ops0 {
-			if o.raw < marks0[2] {
+			if o.raw < marks0[3] {
 				acked++
 			}
 		}
